@@ -26,7 +26,7 @@ def run(ctx):
     for i in range(nb):
         lang = 'ja' if i % 3 == 2 else 'en'
         fmts = R.offered(lang)
-        batch = R.make_batch(rng, lang, awkward=0.1)
+        batch = R.make_batch(rng, lang, awkward=0.1, with_failed=0.15, bare=0.5)
         pristine = R.clone_batch(batch)
         # reference output of every format on a fresh copy each
         ref = {}
@@ -37,10 +37,11 @@ def run(ctx):
                 ref[f] = ('raised', type(e).__name__)
         if ctx.thorough:
             seqs = [[rng.choice(fmts) for _ in range(rng.randint(2, 6))] for _ in range(12)]
-            seqs += [list(p) for p in itertools.permutations(fmts, 2)][:30]
+            seqs += [list(p) for p in itertools.product(fmts, repeat=2)]
         else:
             pairs = [list(p) for p in itertools.product(fmts, repeat=2)]
-            seqs = rng.sample(pairs, min(len(pairs), 25)) + [[f, f, f] for f in fmts[:3]]
+            # every ordered pair of formats on every second batch, a sample on the others
+            seqs = (pairs if i % 2 == 0 else rng.sample(pairs, min(len(pairs), 25))) + [[f, f, f] for f in fmts[:3]]
         for seq in seqs:
             work = R.clone_batch(pristine)
             desc = {'lang': lang, 'sequence': seq, 'batch': [[T.enc_tree(st.tree)[:800] for st in sent] for sent in work]}
